@@ -208,9 +208,13 @@ def mkItems (next : Nat) : List Piece → List Node × Nat
 
 /-! ### the initial state: a parsed document, ids in pre-order (node, its attributes with their value
     items, its children) -/
+/-- a namespace declaration (`xmlns`, `xmlns:p`) is not an attribute node of the DOM view -/
+def isNsDecl (q : QN) : Bool := q.pre == some "xmlns".toList || (q.pre == none && q.loc == "xmlns".toList)
+
 def buildAttrs (next : Nat) : List Attr → List Node × Nat
   | [] => ([], next)
   | a :: r =>
+    if isNsDecl a.name then buildAttrs next r else
     let items := mkItems (next + 1) a.vals
     let rest := buildAttrs items.2 r
     (Node.mk next (.attr a.name.text true) [] [] items.1 :: rest.1, rest.2)
@@ -309,7 +313,14 @@ def adjustRef (pn : Node) (c : Nat) (ref : Option Nat) : Option Nat :=
 /-- a document holds one element and one document type, the document type first -/
 def docRefuses (pn : Node) (ck : Kind) (c : Nat) (ref' : Option Nat) : Bool :=
   pn.kind == .doc && (match ck with
-    | .elem _ => pn.kids.any (fun k => (match k.kind with | .elem _ => true | _ => false) && k.id != c)
+    | .elem _ =>
+        pn.kids.any (fun k => (match k.kind with | .elem _ => true | _ => false) && k.id != c) ||
+        -- the document element stands after the document type
+        (match pn.kids.findIdx? (fun k => match k.kind with | .doctype _ => true | _ => false), ref' with
+         | some di, some r => (match pn.kids.findIdx? (·.id == r) with
+             | some ri => !decide (di < ri)
+             | none => false)
+         | _, _ => false)
     | .doctype _ =>
         pn.kids.any (fun k => match k.kind with | .doctype _ => true | _ => false) ||
         (match pn.kids.findIdx? (fun k => match k.kind with | .elem _ => true | _ => false) with
@@ -351,6 +362,20 @@ def removeChild (s : St) (p c : Nat) : St × Res :=
 /-- the attribute of element node `e` with (local) name `name` -/
 def findAttr (e : Node) (name : Str) : Option Node :=
   e.attrs.find? fun a => match a.kind with | .attr n _ => localName n == localName name | _ => false
+
+/-- take the node out (if it is there) and keep it as a detached tree -/
+def St.detachKeep (s : St) (i : Nat) : St :=
+  match s.detach i with
+  | (s', some x) => { s' with detached := s'.detached ++ [x] }
+  | (s', none) => s'
+
+def St.detachAll (s : St) : List Nat → St
+  | [] => s
+  | i :: r => (s.detachKeep i).detachAll r
+
+/-- attributes are addressed by local part: the ids of ALL attributes of `e` with the local part of `name` -/
+def sameLocalIds (e : Node) (name : Str) : List Nat :=
+  (e.attrs.filter fun a => match a.kind with | .attr n _ => localName n == localName name | _ => false).map (·.id)
 
 def step (s : St) : Op → St × Res
   | .createElement name =>
@@ -407,22 +432,15 @@ def step (s : St) : Op → St × Res
            | some ps =>
              let (items, n') := mkItems (s.next + 1) ps
              let a := Node.mk s.next (.attr name true) [] [] items
-             -- an attribute of that name is replaced (and becomes a detached, anonymous node)
-             let old := findAttr en name
-             let s1 : St := match old with
-               | some o => (match s.detach o.id with | (s', some x) => { s' with detached := s'.detached ++ [x] } | (s', none) => s')
-               | none => s
+             -- every attribute of that local part is replaced (they become detached, anonymous nodes)
+             let s1 : St := s.detachAll (sameLocalIds en name)
              ({ (s1.update e (Node.mapAttrs (· ++ [a]))) with next := n' }, .ok)
          | _ => (s, .err .notFound))
       | none => (s, .err .notFound)
   | .removeAttribute e name =>
       match s.find e with
       | some en =>
-        (match findAttr en name with
-         | some o => (match s.detach o.id with
-             | (s', some x) => ({ s' with detached := s'.detached ++ [x] }, .ok)
-             | (_, none) => (s, .ok))
-         | none => (s, .ok))
+        (s.detachAll (sameLocalIds en name), .ok)
       | none => (s, .err .notFound)
   | .setAttributeNode e a =>
       match s.find e, s.find a with
@@ -431,12 +449,8 @@ def step (s : St) : Op → St × Res
          | .attr name _ =>
            if (s.owner a) == some e then (s, .node a) else         -- already this element's attribute: nothing to do
            if (s.owner a).isSome then (s, .err .inUse) else
-           let old := findAttr en name
-           let (s1, oldId) : St × Option Nat := match old with
-             | some o => (match s.detach o.id with
-                 | (s', some x) => ({ s' with detached := s'.detached ++ [x] }, some o.id)
-                 | (s', none) => (s', none))
-             | none => (s, none)
+           let oldId : Option Nat := (findAttr en name).map (·.id)
+           let s1 : St := s.detachAll (sameLocalIds en name)
            (match s1.detach a with
             | (s2, some x) =>
               (s2.update e (Node.mapAttrs (· ++ [x])),
@@ -446,9 +460,17 @@ def step (s : St) : Op → St × Res
       | _, _ => (s, .err .notFound)
   | .removeAttributeNode e a =>
       if s.owner a == some e then
-        match s.detach a with
-        | (s', some x) => ({ s' with detached := s'.detached ++ [x] }, .node a)
-        | (_, none) => (s, .err .notFound)
+        -- removal goes by the node's local part: every attribute of the element with that local part goes with it
+        match s.find e, s.find a with
+        | some en, some an =>
+          (match an.kind with
+           | .attr name _ =>
+             -- recorded finding `attr-local-part`: the node is looked up by its local part, so only the FIRST attribute
+             -- of that local part is found; DOM Level 1 would remove any attribute node of the element
+             if (findAttr en name).map (·.id) == some a then (s.detachAll (sameLocalIds en name), .node a)
+             else (s, .err .notFound)
+           | _ => (s, .err .notFound))
+        | _, _ => (s, .err .notFound)
       else (s, .err .notFound)
   | .getAttributeNode e name =>
       match s.find e with
